@@ -136,6 +136,16 @@ def run(rep, tier, driver):
             if got != want:
                 rep.violation("input", {"iupac": s, "opts": o}, {"result": got}, {"result": want, "note": "start must not change the molecule"},
                               key="start:%s:%s" % (st, s))
+    # the Lean Models of the start-atom choice and of the root anomer decision (C13_start_fallback, C13_suffix_wins, ...) against
+    # Merger.merge, observed inside real conversions
+    import queryx
+    sj = []
+    for (gi, k, st), (s, o) in zip(meta, jobs):
+        suffix = "a" if (k.startswith("suffix-a") or k == "tight-a" or k == "start:suffix-a") else "b" if (k.startswith("suffix-b") or k == "tight-b") else ""
+        sj.append((s, o, suffix))
+    if tier == "quick":
+        sj = rng.sample(sj, min(len(sj), 500))
+    queryx.run_start(rep, tier, driver, sj, None)
 
 
 def replay(body):
